@@ -43,7 +43,7 @@
 
 //@ fn src/wasm.rs :: WasmKeeper :: register_contract
 //@   ret r
-//@   ensures [C11.register.sem,C08] (r, final(storage).view()) == self.register_sem(old(storage).view(), code_id, creator, admin, label, created, salt)
+//@   ensures [C11.register.sem,C08,C19] (r, final(storage).view()) == self.register_sem(old(storage).view(), code_id, creator, admin, label, created, salt)
 //@   replace "admin: impl Into<Option<Addr>>," => "admin: Option<Addr>,"
 //@   replace "salt: impl Into<Option<Binary>>," => "salt: Option<Binary>,"
 //@   replace? "= salt.into() {" => "= salt {"
